@@ -300,7 +300,7 @@ def dex_fields(d):
 
 
 def analyse(d):
-    """-> (format, fields, cuts)"""
+    """-> (format, fields, cuts); see also `anchors`"""
     pe = PEInfo(d)
     if pe.ok:
         return ("dotnet" if any(l.startswith("cli.") for _, _, _, l in pe.F) else "pe"), pe.F, pe.cuts
@@ -363,3 +363,39 @@ def mutate(r, data, fields, cuts):
             ops.append("A%d:%02x" % (r.choice([1, 7, 4096]), r.choice([0, 0xff, 0x41])))
         kind = "bytes-random"
     return ",".join(ops) or "N", kind
+
+
+import re
+PTR_RX = re.compile(r"rva|Address|Name|Offset|Pointer|offset|_off$|fileoff|entryoff|e_lfanew|phoff|shoff|Thunk|thunk|IAT|INT|link|shstrndx|shndx|name|uleb|idx|\+\d+$|heap|tabledata|dword")
+CNT_RX = re.compile(r"Number|size|Size|count|num|nsects|ncmds|Length|cb$|rows|filesz|memsz|nfat|cmdsize|HeapSizes|Valid")
+
+
+def anchors(d):
+    """values that, stored in a pointer-like field, make it point at / just before / just past the end of the file"""
+    n = len(d)
+    a = [n]
+    pe = PEInfo(d)
+    if pe.ok:
+        for va, vs, rp, rs in pe.sections:
+            if rp <= n and rs and rp + rs >= n - 64:
+                a.append(va + (n - rp))           # rva of end-of-file
+        for off, w, en, lab in pe.F:
+            if lab == "md.VersionLength":
+                a.append(n - (off - 12))          # end of file relative to the metadata root
+    return a
+
+
+def klass(label):
+    return re.sub(r"\d+", "#", label)
+
+
+def directed_value(r, lab, cur, width, n, anch):
+    top = (1 << (8 * width)) - 1
+    if CNT_RX.search(lab) and not PTR_RX.search(lab):
+        pool = [top, top >> 1, (top >> 1) + 1, n, n // 2, n // 4, n // 8, n // 16, n // 20, n // 40, 0xffff, 0x10000, cur + 1, cur * 2 + 1, cur + 0x100, 0]
+    else:
+        pool = []
+        for e in anch:
+            pool += [e - k for k in (1, 2, 3, 4, 7, 8, 12, 16, 20, 24, 39, 40)] + [e, e + 1]
+        pool += [top, top - 7, 0]
+    return r.choice(pool) & top
